@@ -224,7 +224,7 @@ def has_directive_key(v) -> bool:
     return False
 
 
-API_ROUTES = {"rf", "rf-patch", "ov-rf", "ov-create"}
+API_ROUTES = {"rf", "rf-patch", "rf-drift", "ov-rf", "ov-create"}
 
 
 def gen_key(r, used) -> str:
@@ -267,6 +267,77 @@ def gen_leaf(r, allow_expr=False):
     return [] if r.random() < 0.5 else {}
 
 
+# what a flattening of nested keys into ONE string could be joined with (a key is any text, so a key may itself
+# contain any of these): `a.b`, `a/b`, `a:b` … next to the nested chain a → b
+PATH_SEPARATORS = [".", ".", ".", "/", ":", "-", "_", "", " ", "|", ",", "\x00", "']['", "\"][\"", "\n", "\\", "=", "->"]
+
+
+def key_chains(v, prefix=()):
+    """every chain of ≥ 2 keys that leads through nested non-empty maps of `v` (to a leaf or to a map)"""
+    if isinstance(v, dict):
+        for k, x in v.items():
+            here = prefix + (k,)
+            if len(here) >= 2:
+                yield here
+            yield from key_chains(x, here)
+
+
+def regroup(r, chain, sep):
+    """the same path spelled with fewer, joined segments: (a, b, c) → (a.b, c) | (a, b.c) | (a.b.c,)"""
+    n = len(chain)
+    for _ in range(8):
+        cuts = [i for i in range(1, n) if r.random() < 0.35]
+        if len(cuts) < n - 1:
+            break
+    else:
+        cuts = []
+    out, start = [], 0
+    for c in cuts + [n]:
+        out.append(sep.join(chain[start:c]))
+        start = c
+    return tuple(out)
+
+
+def write_at(v: dict, path, leaf) -> bool:
+    """write `leaf` at `path` (maps made on the way) unless something is in the way; True if written"""
+    cur = v
+    for k in path[:-1]:
+        if k not in cur:
+            cur[k] = {}
+        if not isinstance(cur[k], dict):
+            return False
+        cur = cur[k]
+    if path[-1] in cur:
+        return False
+    cur[path[-1]] = leaf
+    return True
+
+
+def add_path_alias(r, v: dict, times: int = 1):
+    """a key (or shorter chain of keys) that SPELLS the path of a nested chain in the same map — `{a: {b: 1}, "a.b": 2}`,
+    `{a: {b: {c: 1}}, "a.b": {c: 2}}`, `{"a.b": {c: 1}, a: {"b.c": 2}}` — holding a different value.  Legal and
+    ordinary (label keys, ConfigMap file names have dots and slashes); the two places are different places."""
+    import copy
+
+    v = copy.deepcopy(v)
+    for _ in range(times):
+        chains = list(key_chains(v))
+        if chains and r.random() < 0.8:
+            chain = r.choice(chains)
+        else:                                   # no nested chain yet: make one
+            chain = tuple(r.choice(["a", "b", "c", "config", "yaml", "x", "0", "k", "app"]) for _ in range(r.choice([2, 2, 3])))
+            if not write_at(v, chain, gen_leaf(r)):
+                continue
+        sep = r.choice(PATH_SEPARATORS)
+        alias = regroup(r, chain, sep)
+        if alias == tuple(chain):
+            continue
+        k = r.random()
+        leaf = gen_leaf(r) if k < 0.7 else {chain[-1]: gen_leaf(r)} if k < 0.85 else [gen_leaf(r)]
+        write_at(v, alias, leaf)
+    return v
+
+
 def gen_value(r, depth=3, allow_expr=False):
     k = r.random()
     if depth <= 0 or k < 0.45:
@@ -275,7 +346,10 @@ def gen_value(r, depth=3, allow_expr=False):
     if k < 0.72:
         return [gen_value(r, depth - 1, allow_expr) for _ in range(n)]
     used: set = set()
-    return {gen_key(r, used): gen_value(r, depth - 1, allow_expr) for _ in range(n)}
+    out = {gen_key(r, used): gen_value(r, depth - 1, allow_expr) for _ in range(n)}
+    if r.random() < 0.15:
+        out = add_path_alias(r, out, times=r.choice([1, 1, 2]))
+    return out
 
 
 # literal texts for the lexer differential (well-formed by construction: every backslash either starts a
@@ -441,7 +515,8 @@ def route_rf(v):
         spec = {"apiConfig": {"apiVersion": "v1", "kind": "ConfigMap", "plural": "configmaps", "name": "c11-cm",
                               "namespace": "ns", "owned": False},
                 "resource": {"data": v, "wrap": {"inner": [v]}, "metadata": _meta_of(v)},
-                "overlays": [{"overlay": {"viaOverlay": v, "metadata": {"annotations": {"c11/ov": v}}}}]}
+                "overlays": [{"overlay": {"viaOverlay": v, "metadata": {"annotations": {"c11/ov": v}}}}],
+                "create": {"overlay": {"viaCreate": v, "wrapCreate": {"inner": v}}}}
         fn = await ku.offer_resource_function("c11-rf", spec)
         if _obs(fn) != "ok":
             return ("prepare-" + _obs(fn), None)
@@ -453,7 +528,8 @@ def route_rf(v):
         body = posts[0]["body"]
         try:
             return ("ok", {"resource": body["data"], "resource.nested": body["wrap"]["inner"][0],
-                           "overlay": body["viaOverlay"], **_read_meta(body)})
+                           "overlay": body["viaOverlay"], "create.overlay": body["viaCreate"],
+                           "create.overlay (nested)": body["wrapCreate"]["inner"], **_read_meta(body)})
         except Exception:
             return ("bad-body", None)
 
@@ -723,8 +799,91 @@ def route_rf_patch(v):
     return ku.run(go())
 
 
-ROUTES = {"unit": route_unit, "vf": route_vf, "rf": route_rf, "rf-patch": route_rf_patch, "wf": route_wf,
-          "wf-state": route_wf_state}
+EDITED = "edited by somebody else"
+OWN_LITERAL = "__LITERAL_OF_THE_ROUTE__"   # (OWN_LITERAL, written, delivered): a literal the route itself wrote next to `v`
+
+
+def _edit_live(obj: dict, how: str) -> dict:
+    """what another client does to the live object between two reconciles: it never touches the last-applied
+    annotation (only koreo writes it).  `marker` = one unrelated managed leaf; `all` = every managed place"""
+    import copy
+
+    obj = copy.deepcopy(obj)
+    obj["marker"] = EDITED
+    if how == "all":
+        obj["data"] = EDITED
+        obj["wrap"] = {"inner": [EDITED, EDITED]}
+        obj["viaOverlay"] = {"edited": EDITED}
+        md = obj.setdefault("metadata", {})
+        md.setdefault("annotations", {})["c11/lit"] = EDITED
+        md["annotations"]["c11/ov"] = EDITED
+        md["labels"] = {"c11-lit": EDITED}
+        md["finalizers"] = [EDITED]
+        md["extra"] = {"deep": EDITED}
+    return obj
+
+
+def route_rf_drift(v):
+    """a SEQUENCE on one object: (1) the ResourceFunction creates it (POST; koreo stores its last-applied annotation),
+    (2) nothing to do on the next reconcile (not judged), (3) somebody else edits the live object inside the managed
+    sections, (4) the ResourceFunction reconciles again: exactly one PATCH, and its body must hold every literal of
+    `resource` / the inline overlay exactly as written — `target == last-applied != live` is the ordinary drift case.
+    Run twice: the edit touches one unrelated leaf only / every managed place."""
+    import celpy
+    import cluster
+    import koreo_util as ku
+    from koreo.resource_function.reconcile import reconcile_resource_function
+
+    out = {}
+    for how in ("marker", "all"):
+        ku.reset()
+        cl = cluster.Cluster()
+
+        async def go():
+            spec = {"apiConfig": {"apiVersion": "v1", "kind": "ConfigMap", "plural": "configmaps", "name": "c11-cm",
+                                  "namespace": "ns", "owned": False},
+                    "resource": {"marker": "wanted", "data": v, "wrap": {"inner": [v]}, "metadata": _meta_of(v)},
+                    "overlays": [{"overlay": {"viaOverlay": v, "metadata": {"annotations": {"c11/ov": v}}}}]}
+            fn = await ku.offer_resource_function("c11-rf", spec)
+            if _obs(fn) != "ok":
+                return ("prepare-" + _obs(fn), None)
+
+            async def reconcile():
+                await reconcile_resource_function(api=cl, location="c11", function=fn, owner=("other", dict(ku.OWNER_REF)),
+                                                  inputs=celpy.json_to_cel({}))
+
+            await reconcile()                                   # (1) create
+            muts = cl.mutations()
+            if [m["method"] for m in muts] != ["POST"] or len(cl.objects) != 1:
+                return ("-".join(m["method"] for m in muts) + "-instead-of-one-POST", None)
+            await reconcile()                                   # (2) steady state (whatever it does is not C11's)
+            (key, live), = cl.objects.items()
+            cl.objects[key] = _edit_live(live, how)             # (3) external edit
+            since = len(cl.log)
+            await reconcile()                                   # (4) the drift is repaired
+            muts = cl.mutations(since)
+            if len(muts) != 1 or muts[0]["method"] != "PATCH":
+                return ("after-the-edit-" + "-".join(m["method"] for m in muts) + "-instead-of-one-PATCH", None)
+            body = muts[0]["body"] if isinstance(muts[0]["body"], dict) else {}
+            miss = "<missing from the PATCH body>"
+            wrap = body.get("wrap")
+            tag = f" (PATCH after create + external edit of {'one other leaf' if how == 'marker' else 'every managed place'})"
+            return ("ok", ({"resource" + tag: body.get("data", miss),
+                            "resource.nested" + tag: wrap["inner"][0] if isinstance(wrap, dict) and isinstance(
+                                wrap.get("inner"), list) and len(wrap["inner"]) == 1 else miss,
+                            "overlay" + tag: body.get("viaOverlay", miss), **_read_meta(body, tag),
+                            # the route's own literal leaf `marker: wanted` of `resource` — the one that was edited
+                            "resource.marker" + tag: (OWN_LITERAL, "wanted", body.get("marker", miss))}))
+
+        status, got = ku.run(go())
+        if status != "ok":
+            return (f"{status} [{how}]", None)
+        out.update(got)
+    return ("ok", out)
+
+
+ROUTES = {"unit": route_unit, "vf": route_vf, "rf": route_rf, "rf-patch": route_rf_patch, "rf-drift": route_rf_drift,
+          "wf": route_wf, "wf-state": route_wf_state}
 OV_ROUTES = {"ov-rf": route_ov_rf, "ov-create": route_ov_create, "ov-vf": route_ov_vf}
 ALL_ROUTES = {**ROUTES, **OV_ROUTES}
 
@@ -750,7 +909,10 @@ def judge(route: str, v):
     if route == "unit":
         return None if tcanon(got) == want else "unit: delivered value differs from the written one"
     for place, g in got.items():
-        if tcanon(g) != want:
+        if isinstance(g, tuple) and len(g) == 3 and g[0] == OWN_LITERAL:
+            if tcanon(g[2]) != tcanon(expected(g[1])):
+                return f"{route}: value delivered at `{place}` differs from the written one ({g[1]!r})"
+        elif tcanon(g) != want:
             return f"{route}: value delivered at `{place}` differs from the written one"
     return None
 
@@ -1167,9 +1329,11 @@ def run(tier: str) -> int:
              "look-alikes, quote runs of 1-4 at start/middle/end, numerals and one-edit near-numerals, Unicode digits, "
              "blanks, empty containers, int64 extremes, floats k/8): exact text of encode_cel vs the model; real celpy's token stream vs the model tokenizer on the "
              "emitted texts (and on hand-built texts of the sub-language incl. white space, 1. .5 1.e5); celpy vs the "
-             "model lexer on the emitted literals and on hand-built literal texts; the real pipeline on six routes "
+             "model lexer on the emitted literals and on hand-built literal texts; the real pipeline on seven routes "
              "(expression, ValueFunction return/locals, ResourceFunction resource/overlay POST body and — for an object that "
-             "exists and drifted — PATCH body, Workflow inputs/state, Workflow `state` of eight Ok steps whose Logic returns null, null, [], {} and their truthy "
+             "exists and drifted — PATCH body, and the PATCH body of the sequence create → steady reconcile → external edit of the "
+             "live object → reconcile; maps in which a key spells the path of a nested chain beside it (a.b next to a → b, "
+             "16 separators); Workflow inputs/state, Workflow `state` of eight Ok steps whose Logic returns null, null, [], {} and their truthy "
              "counterparts) and, for written overlay leaves incl. {} [] \"\", on three overlay-onto-base routes "
              "(overlays[].overlay, create.overlay, ValueFunction return on a base) over bases holding non-empty "
              "maps/lists/scalars. non-trivial = strings containing a quote, backslash, newline, CR, tab or non-ASCII "
@@ -1204,7 +1368,7 @@ def search(ck, quick_budget: bool, salt: str = ""):
         oracle_batch(ck, batch, "unit")
     for nv in ([None], {"a": None}, {"a": {"b": None, "c": 1}, "d": None}, [None, {"v": None}, 0], {"": None},
                {"k": [], "m": {}, "s": "", "z": 0, "f": False, "n": None}):
-        for route in ("vf", "rf", "rf-patch", "wf", "wf-state"):
+        for route in ("vf", "rf", "rf-patch", "rf-drift", "wf", "wf-state"):
             ck.count(f"oracle:{route}")
             oracle_batch_e2e(ck, nv, route)
     # keys that look like comparison directives but are not (shared prefix, one character off): as top-level data keys,
@@ -1214,7 +1378,7 @@ def search(ck, quick_budget: bool, salt: str = ""):
     near_value = {"labels": {k: "v" for k in near}, "items": [{k: i} for i, k in enumerate(near[:12])],
                   **{k: i for i, k in enumerate(near)}}
     exact_value = {"labels": {k: ["a"] for k in sorted(directive_keys())}, **{k: i for i, k in enumerate(sorted(directive_keys()))}}
-    for route in ("unit", "vf", "rf", "rf-patch", "wf", "wf-state"):
+    for route in ("unit", "vf", "rf", "rf-patch", "rf-drift", "wf", "wf-state"):
         ck.count(f"oracle:{route}")
         ck.count("oracle:near-directive-keys", len(near))
         oracle_batch_e2e(ck, near_value, route)
@@ -1223,6 +1387,27 @@ def search(ck, quick_budget: bool, salt: str = ""):
     for route in OV_ROUTES:
         ck.count(f"oracle:{route}")
         oracle_batch_e2e(ck, [[{"a": 1}, [{k: 1 for k in near}]], [ABSENT, [{k: [k]} for k in near[:8]]], [[1], near[:6]]], route)
+    # keys that spell the path of a nested chain beside them (every separator; alias of a leaf, of a map, of a prefix, two
+    # groupings of one path, the alias first / last) — on every route incl. the overlay-type blocks (return, overlay,
+    # create.overlay) where a written map is taken apart key by key
+    for sep in dict.fromkeys(PATH_SEPARATORS):
+        j = lambda *ks: sep.join(ks)
+        alias_values = [
+            {"p": {"q": "nested"}, j("p", "q"): "flat"},
+            {j("p", "q"): 1, "p": {"q": True, "r": 2.5}},
+            {"d": {"p": {"q": 1, "r": "x"}, j("p", "q"): False, j("p", "r"): [1, "two", {"k": "v"}]}},
+            {j("p", "q"): {"r": "one"}, "p": {j("q", "r"): "two", "q": {"r": None}}, j("p", "q", "r"): 3},
+        ]
+        for av in alias_values:
+            for route in ROUTES:
+                if route == "rf-drift" and sep != ".":      # three reconciles × two edits per value: one separator
+                    continue                                 # there (its request bodies are built as on rf-patch)
+                ck.count(f"oracle:{route}")
+                ck.count("oracle:path-alias-keys")
+                oracle_batch_e2e(ck, av, route)
+        for route in OV_ROUTES:
+            ck.count(f"oracle:{route}")
+            oracle_batch_e2e(ck, [[{"a": 1}, [alias_values[0]]], [ABSENT, [alias_values[3], alias_values[1]]]], route)
     n_e2e = 150 if quick_budget else 3000
     for i in range(n_e2e):
         batch = []
@@ -1233,7 +1418,12 @@ def search(ck, quick_budget: bool, salt: str = ""):
         used: set = set()
         composite = {gen_key(r, used): b for b in batch[:3]}
         composite["list"] = batch[3:]
-        for route in ("vf", "rf", "rf-patch", "wf", "wf-state"):
+        if i % 3 == 0 and isinstance(composite, dict):
+            composite = add_path_alias(r, composite, times=r.choice([1, 2]))
+            ck.count("oracle:composite-with-path-alias-keys")
+        for route in ("vf", "rf", "rf-patch", "rf-drift", "wf", "wf-state"):
+            if route == "rf-drift" and quick_budget and i % 2:
+                continue
             ck.count(f"oracle:{route}")
             if in_domain(composite):
                 oracle_batch_e2e(ck, composite, route)
